@@ -537,10 +537,11 @@ def resolve_strategy_inline_recurse(path, base, decisions):
     decisions.decisions = []
 
     for d in old_decisions:
-        if not d.conflict:
+        if not d.conflict or not (d.local_diff and d.remote_diff):
+            # Also conflicts that carry the diff of one side only (e.g. the
+            # other side deleted the parent cell) are not insert conflicts
             decisions.decisions.append(d)
             continue
-        assert d.local_diff and d.remote_diff
         laname, lpname = chunk_typename(d.local_diff)
         raname, rpname = chunk_typename(d.remote_diff)
         chunktype = laname + lpname + "/" + raname + rpname
